@@ -207,7 +207,17 @@ func (db *DB) ScanPrefix(prefix []byte, errOut *error) iter.Seq[kv.Entry] {
 	sstables := db.currentSSTables()
 	vhook.At("dkv.scan.window", db)
 	iters := []iter.Seq[kv.Entry]{db.mtables.ScanPrefix(prefix, errOut), sstables.ScanPrefix(prefix, errOut)}
-	return kv.MergeEntries(iters)
+	// Drop deleted entries only after merging so that memtable deletes mask flushed puts
+	return func(yield func(kv.Entry) bool) {
+		for entry := range kv.MergeEntries(iters) {
+			if entry.IsDelete() {
+				continue
+			}
+			if !yield(entry) {
+				return
+			}
+		}
+	}
 }
 
 // Checkpoint initiates a DB checkpoint associated with the caller's provided
